@@ -168,6 +168,9 @@ func (e *Engine) registerPairs() {
 		if !callsASN1(fn, "Marshal") || strings.Contains(fn.Name(), "$") {
 			continue
 		}
+		if fn.Signature.Recv() == nil && fn.Signature.Params().Len() == 0 {
+			continue // builds its value itself (e.g. from the clock): runs from its real code down to the raw encoder
+		}
 		fn := fn
 		name := fn.String()
 		hasErr := res.Len() == 2
